@@ -8,6 +8,7 @@ TODO: Handle sys.argv
 import ast
 import sys
 import io
+import time
 import types
 from itertools import zip_longest
 from unittest.mock import patch
@@ -626,7 +627,7 @@ class Sandbox:
         self._start_patches(
             patch.dict('sys.modules', overridden_modules),
             patch('sys.stdout', self._current_stdout[-1]),
-            patch('time.sleep', return_value=None),
+            patch.object(time, 'sleep', return_value=None),
         )
 
     def _stop_mocking(self, context: SandboxContext):
